@@ -28,8 +28,10 @@ namespace EPV.C01
 wherever neither guard is active and the three power bases are positive -/
 theorem SedovFuncs_dlamdv (p : SedovFuncs.P) (v : ℝ) (hs1 : 0 < p.a_val * v) (hs2 : 0 < p.b_val * (p.c_val * v - 1)) (hs3 : 0 < p.d_val * (1 - p.e_val * v)) :
     HasDerivAt (fun v => SedovFuncs.L1.l_fun p v) (SedovFuncs.L1.dlamdv p v) v := by
-  refine (SedovFuncs.L1.l_fun_hasDerivAt_v p v hs1 hs2 hs3).congr_deriv ?_
-  simp only [epv_deriv, epv_leaf]
+  -- the certificate's side conditions (number, order and form follow the Python) are discharged from hs1 hs2 hs3
+  epv_hydro_have_cert hcert : SedovFuncs.L1.l_fun_hasDerivAt_v p v
+  refine hcert.congr_deriv ?_
+  simp only [epv_semi_deriv, epv_semi_leaf]
   have h1 := hs1.ne'; have h2 := hs2.ne'; have h3 := hs3.ne'
   have h4 : p.a_val ≠ 0 := left_ne_zero_of_mul h1
   have h5 : p.b_val ≠ 0 := left_ne_zero_of_mul h2
@@ -42,18 +44,18 @@ theorem SedovFuncs_dlamdv_tree (p : SedovFuncs.P) (v : ℝ) (hleaf : ¬ SedovFun
     ((4951760157141521 : ℝ) / 4951760157141521099596496896) < p.b_val * (1 - 1 / 2 * p.xg2 * v)) (hs1 : 0 < p.a_val * v) (hs2 : 0 < p.b_val * (p.c_val * v - 1)) (hs3 : 0 < p.d_val * (1 - p.e_val * v)) :
     HasDerivAt (fun v => SedovFuncs.l_fun p v) (SedovFuncs.dlamdv p v) v := by
   have hc0 : ¬ SedovFuncs.c0 p v := hleaf.1
-  have hc1 : SedovFuncs.c1 p v := by simp only [epv_cond]; exact hleaf.2.le
+  have hc1 : SedovFuncs.c1 p v := by simp only [epv_semi_cond]; exact hleaf.2.le
   have hval : SedovFuncs.dlamdv p v = SedovFuncs.L1.dlamdv p v := by
     simp only [epv_tree, hc0, hc1, if_false, if_true]
   rw [hval]
   refine (SedovFuncs_dlamdv p v hs1 hs2 hs3).congr_of_eventuallyEq ?_
   -- both guards are open conditions in v
   have hopen0 : ∀ᶠ w in nhds v, ¬ SedovFuncs.c0 p w := by
-    simp only [epv_cond, not_le] at hc0 ⊢
+    simp only [epv_semi_cond, not_le] at hc0 ⊢
     have hcont : Continuous fun w : ℝ => p.c_val * w - 1 := by fun_prop
     exact hcont.continuousAt.eventually (lt_mem_nhds hc0)
   have hopen1 : ∀ᶠ w in nhds v, SedovFuncs.c1 p w := by
-    simp only [epv_cond]
+    simp only [epv_semi_cond]
     have hcont : Continuous fun w : ℝ => p.b_val * (1 - 1 / 2 * p.xg2 * w) := by fun_prop
     exact (hcont.continuousAt.eventually (lt_mem_nhds hleaf.2)).mono fun w hw => hw.le
   filter_upwards [hopen0, hopen1] with w h0 h1
@@ -63,8 +65,10 @@ theorem SedovFuncs_dlamdv_tree (p : SedovFuncs.P) (v : ℝ) (hleaf : ¬ SedovFun
 wherever neither guard is active and the three power bases are positive -/
 theorem SedovFuncsO2_dlamdv (p : SedovFuncsO2.P) (v : ℝ) (hs1 : 0 < p.a_val * v) (hs2 : 0 < p.b_val * (p.c_val * v - 1)) (hs3 : p.a_val * v - 1 / 2 * p.gamp1 / p.gamma ≠ 0) :
     HasDerivAt (fun v => SedovFuncsO2.L1.l_fun p v) (SedovFuncsO2.L1.dlamdv p v) v := by
-  refine (SedovFuncsO2.L1.l_fun_hasDerivAt_v p v hs1 hs2 hs3).congr_deriv ?_
-  simp only [epv_deriv, epv_leaf]
+  -- the certificate's side conditions (number, order and form follow the Python) are discharged from hs1 hs2 hs3
+  epv_hydro_have_cert hcert : SedovFuncsO2.L1.l_fun_hasDerivAt_v p v
+  refine hcert.congr_deriv ?_
+  simp only [epv_semi_deriv, epv_semi_leaf]
   -- the transcendental atoms and the two denominators, then it is a polynomial identity
   generalize Real.exp ((p.gamp1 * ((1 : ℝ) / ((2 : ℝ) * p.e_val))) * (((1 : ℝ) - (p.a_val * v)) * ((1 : ℝ) / ((p.a_val * v) - ((((1 : ℝ) / 2) * p.gamp1) / p.gamma))))) = Ex
   generalize (p.b_val * ((p.c_val * v) - (1 : ℝ))) ^ (p.gamm1 * ((1 : ℝ) / ((2 : ℝ) * p.e_val))) = Bq
@@ -83,18 +87,18 @@ theorem SedovFuncsO2_dlamdv_tree (p : SedovFuncsO2.P) (v : ℝ) (hleaf : ¬ Sedo
     ((4951760157141521 : ℝ) / 4951760157141521099596496896) < p.b_val * (1 - 1 / 2 * p.xg2 * v)) (hs1 : 0 < p.a_val * v) (hs2 : 0 < p.b_val * (p.c_val * v - 1)) (hs3 : p.a_val * v - 1 / 2 * p.gamp1 / p.gamma ≠ 0) :
     HasDerivAt (fun v => SedovFuncsO2.l_fun p v) (SedovFuncsO2.dlamdv p v) v := by
   have hc0 : ¬ SedovFuncsO2.c0 p v := hleaf.1
-  have hc1 : SedovFuncsO2.c1 p v := by simp only [epv_cond]; exact hleaf.2.le
+  have hc1 : SedovFuncsO2.c1 p v := by simp only [epv_semi_cond]; exact hleaf.2.le
   have hval : SedovFuncsO2.dlamdv p v = SedovFuncsO2.L1.dlamdv p v := by
     simp only [epv_tree, hc0, hc1, if_false, if_true]
   rw [hval]
   refine (SedovFuncsO2_dlamdv p v hs1 hs2 hs3).congr_of_eventuallyEq ?_
   -- both guards are open conditions in v
   have hopen0 : ∀ᶠ w in nhds v, ¬ SedovFuncsO2.c0 p w := by
-    simp only [epv_cond, not_le] at hc0 ⊢
+    simp only [epv_semi_cond, not_le] at hc0 ⊢
     have hcont : Continuous fun w : ℝ => p.c_val * w - 1 := by fun_prop
     exact hcont.continuousAt.eventually (lt_mem_nhds hc0)
   have hopen1 : ∀ᶠ w in nhds v, SedovFuncsO2.c1 p w := by
-    simp only [epv_cond]
+    simp only [epv_semi_cond]
     have hcont : Continuous fun w : ℝ => p.b_val * (1 - 1 / 2 * p.xg2 * w) := by fun_prop
     exact (hcont.continuousAt.eventually (lt_mem_nhds hleaf.2)).mono fun w hw => hw.le
   filter_upwards [hopen0, hopen1] with w h0 h1
@@ -104,8 +108,10 @@ theorem SedovFuncsO2_dlamdv_tree (p : SedovFuncsO2.P) (v : ℝ) (hleaf : ¬ Sedo
 wherever neither guard is active and the three power bases are positive -/
 theorem SedovFuncsO3_dlamdv (p : SedovFuncsO3.P) (v : ℝ) (hs1 : 0 < p.a_val * v) (hs2 : 0 < p.b_val * (p.c_val * v - 1)) (hs3 : 0 < p.b_val * (1 - 1 / 2 * p.xg2 * v)) :
     HasDerivAt (fun v => SedovFuncsO3.L1.l_fun p v) (SedovFuncsO3.L1.dlamdv p v) v := by
-  refine (SedovFuncsO3.L1.l_fun_hasDerivAt_v p v hs1 hs2 hs3).congr_deriv ?_
-  simp only [epv_deriv, epv_leaf]
+  -- the certificate's side conditions (number, order and form follow the Python) are discharged from hs1 hs2 hs3
+  epv_hydro_have_cert hcert : SedovFuncsO3.L1.l_fun_hasDerivAt_v p v
+  refine hcert.congr_deriv ?_
+  simp only [epv_semi_deriv, epv_semi_leaf]
   have h1 := hs1.ne'; have h2 := hs2.ne'; have h3 := hs3.ne'
   have h4 : p.a_val ≠ 0 := left_ne_zero_of_mul h1
   have h5 : p.b_val ≠ 0 := left_ne_zero_of_mul h2
@@ -117,18 +123,18 @@ theorem SedovFuncsO3_dlamdv_tree (p : SedovFuncsO3.P) (v : ℝ) (hleaf : ¬ Sedo
     ((4951760157141521 : ℝ) / 4951760157141521099596496896) < p.b_val * (1 - 1 / 2 * p.xg2 * v)) (hs1 : 0 < p.a_val * v) (hs2 : 0 < p.b_val * (p.c_val * v - 1)) (hs3 : 0 < p.b_val * (1 - 1 / 2 * p.xg2 * v)) :
     HasDerivAt (fun v => SedovFuncsO3.l_fun p v) (SedovFuncsO3.dlamdv p v) v := by
   have hc0 : ¬ SedovFuncsO3.c0 p v := hleaf.1
-  have hc1 : SedovFuncsO3.c1 p v := by simp only [epv_cond]; exact hleaf.2.le
+  have hc1 : SedovFuncsO3.c1 p v := by simp only [epv_semi_cond]; exact hleaf.2.le
   have hval : SedovFuncsO3.dlamdv p v = SedovFuncsO3.L1.dlamdv p v := by
     simp only [epv_tree, hc0, hc1, if_false, if_true]
   rw [hval]
   refine (SedovFuncsO3_dlamdv p v hs1 hs2 hs3).congr_of_eventuallyEq ?_
   -- both guards are open conditions in v
   have hopen0 : ∀ᶠ w in nhds v, ¬ SedovFuncsO3.c0 p w := by
-    simp only [epv_cond, not_le] at hc0 ⊢
+    simp only [epv_semi_cond, not_le] at hc0 ⊢
     have hcont : Continuous fun w : ℝ => p.c_val * w - 1 := by fun_prop
     exact hcont.continuousAt.eventually (lt_mem_nhds hc0)
   have hopen1 : ∀ᶠ w in nhds v, SedovFuncsO3.c1 p w := by
-    simp only [epv_cond]
+    simp only [epv_semi_cond]
     have hcont : Continuous fun w : ℝ => p.b_val * (1 - 1 / 2 * p.xg2 * w) := by fun_prop
     exact (hcont.continuousAt.eventually (lt_mem_nhds hleaf.2)).mono fun w hw => hw.le
   filter_upwards [hopen0, hopen1] with w h0 h1
@@ -150,14 +156,14 @@ noncomputable def exO3 : SedovFuncsO3.P :=
 example : 0 < exStd.a_val * (3/10) ∧ 0 < exStd.b_val * (exStd.c_val * (3/10) - 1) ∧ 0 < exStd.d_val * (1 - exStd.e_val * (3/10))
     ∧ ¬ SedovFuncs.c0 exStd (3/10)
     ∧ ((4951760157141521 : ℝ) / 4951760157141521099596496896) < exStd.b_val * (1 - 1 / 2 * exStd.xg2 * (3/10)) := by
-  simp only [epv_cond, exStd]; norm_num
+  simp only [epv_semi_cond, exStd]; norm_num
 example : 0 < exO2.a_val * (4/5) ∧ 0 < exO2.b_val * (exO2.c_val * (4/5) - 1) ∧ exO2.a_val * (4/5) - 1 / 2 * exO2.gamp1 / exO2.gamma ≠ 0
     ∧ ¬ SedovFuncsO2.c0 exO2 (4/5)
     ∧ ((4951760157141521 : ℝ) / 4951760157141521099596496896) < exO2.b_val * (1 - 1 / 2 * exO2.xg2 * (4/5)) := by
-  simp only [epv_cond, exO2]; norm_num
+  simp only [epv_semi_cond, exO2]; norm_num
 example : 0 < exO3.a_val * (1/2) ∧ 0 < exO3.b_val * (exO3.c_val * (1/2) - 1) ∧ 0 < exO3.b_val * (1 - 1 / 2 * exO3.xg2 * (1/2))
     ∧ ¬ SedovFuncsO3.c0 exO3 (1/2)
     ∧ ((4951760157141521 : ℝ) / 4951760157141521099596496896) < exO3.b_val * (1 - 1 / 2 * exO3.xg2 * (1/2)) := by
-  simp only [epv_cond, exO3]; norm_num
+  simp only [epv_semi_cond, exO3]; norm_num
 
 end EPV.C01
